@@ -13,8 +13,7 @@ Definition pool_lm_tick_cond (w a : bool) : bool := (w && a).
 Definition pool_std_tick_cond (w a : bool) : bool := (w && a).
 (* wakeupWaiters is `for { if p.stopped.Load() { return }; time.Sleep(p.wakeupInterval); ... }` and the stop guard is the
    only way out of the loop: the heartbeat, once started, ticks until the pool is stopped *)
-(* pool_lm_hb_forever: ways out of the heartbeat loop: return (line 582) *)
-Definition pool_lm_hb_forever : bool := false.
+Definition pool_lm_hb_forever : bool := true.
 Definition pool_std_hb_forever : bool := true.
 (* get() runs `p.runHeartbeatOnce.Do(func() { go p.wakeupWaiters() })` on every path to getCond.Wait() *)
 Definition pool_lm_hb_starts : bool := true.
